@@ -33,6 +33,7 @@ func C10(ctx *core.Ctx) int {
 	texts := grammarTexts(budget, dsl.NamesUnique)
 	texts = append(texts, repoSamples(ctx)...)
 	texts = append(texts, programTexts(corpusPrograms(ctx))...)
+	texts = append(texts, specialTexts()...)
 	if ctx.Replay != "" {
 		return replayText(ctx, func(c *core.Ctx, t Text) { c10One(c, t, nil, nil, nil) })
 	}
@@ -119,6 +120,9 @@ func c10One(ctx *core.Ctx, t Text, evals, unobs *int64, distinct *sync.Map) {
 		}
 	}
 	check("canonical", base, f0)
+	if t.Raw != "" {
+		check("as written (special characters / repeated comments)", t.Raw, "")
+	}
 	for _, st := range []dsl.Style{dsl.OneLine, dsl.Newline, dsl.Tabs, dsl.CRLF, dsl.Ragged} {
 		check(fmt.Sprintf("uniform layout %d", st), dsl.Render(toks, st), f0)
 	}
